@@ -41,4 +41,3 @@ type X7 struct{ V uint64 }
 
 func MkX7(x uint64) X7 { return X7{V: x} }
 func UnX7(v X7) uint64 { return v.V }
-
